@@ -10,8 +10,12 @@ use smartcore::linalg::qr::QRDecomposableMatrix;
 use smartcore::linalg::svd::SVDDecomposableMatrix;
 use smartcore::math::num::RealNumber;
 
-fn maxcond<T: RealNumber>() -> f64 {
-    if width::<T>() == "f32" {
+/// The quantifier's bound is 1e6 for both widths. The factorisations and the LU / QR / Cholesky solves are judged by
+/// backward-error residuals, which do not depend on the condition number, so they get the full range in f32 too
+/// (half of the f32 draws stay below 1e3). The SVD family keeps f32 inputs below 1e3: its solver applies a rank
+/// tolerance of max(m,n)·eps·s_max, for which an f32 matrix of condition 1e6 is numerically rank-deficient.
+fn maxcond<T: RealNumber>(svd: bool) -> f64 {
+    if width::<T>() == "f32" && svd {
         1e3
     } else {
         1e6
@@ -30,10 +34,10 @@ struct Input {
 }
 
 /// full-rank m×n input rounded to T with cond <= maxcond, rescaled; None if the draw was ill-conditioned
-fn draw_input<T: RealNumber>(c: &mut Case, m: usize, n: usize) -> Option<Input> {
+fn draw_input<T: RealNumber>(c: &mut Case, m: usize, n: usize, svd: bool) -> Option<Input> {
     let kinds: Vec<&str> = FULLRANK_KINDS.iter().cloned().collect();
     let kind = *c.rng.pick(&kinds);
-    let mc = maxcond::<T>();
+    let mc = if width::<T>() == "f32" && !svd && c.rng.bool(0.5) { 1e3 } else { maxcond::<T>(svd) };
     let a0 = fullrank(&mut c.rng, m, n, kind, mc);
     let scale = draw_scale(&mut c.rng);
     let a = if width::<T>() == "f32" { a0.scale(scale).round_f32() } else { a0.scale(scale) };
@@ -174,7 +178,7 @@ fn finite(c: &mut Case, oracle: &str, sg: &str, ms: &[&Mat]) -> bool {
 // ---------------------------------------------------------------- LU
 fn lu_t<T: RealNumber>(c: &mut Case) {
     let n = size(&mut c.rng, 40);
-    let inp = match draw_input::<T>(c, n, n) {
+    let inp = match draw_input::<T>(c, n, n, false) {
         Some(i) => i,
         None => return,
     };
@@ -244,7 +248,7 @@ fn lu_t<T: RealNumber>(c: &mut Case) {
 fn qr_t<T: RealNumber>(c: &mut Case) {
     let n = size(&mut c.rng, 40);
     let m = if c.rng.bool(0.45) { n } else { c.rng.us(n, 40.max(n)) };
-    let inp = match draw_input::<T>(c, m, n) {
+    let inp = match draw_input::<T>(c, m, n, false) {
         Some(i) => i,
         None => return,
     };
@@ -303,7 +307,7 @@ fn qr_t<T: RealNumber>(c: &mut Case) {
 // ---------------------------------------------------------------- Cholesky
 fn chol_t<T: RealNumber>(c: &mut Case) {
     let n = size(&mut c.rng, 40);
-    let mc = maxcond::<T>();
+    let mc = if width::<T>() == "f32" && c.rng.bool(0.5) { 1e3 } else { maxcond::<T>(false) };
     let (a0, kind) = spd(&mut c.rng, n, mc);
     let scale = draw_scale(&mut c.rng);
     let mut a = a0.scale(scale);
@@ -447,7 +451,7 @@ fn svd_t<T: RealNumber>(c: &mut Case) {
         1 => (a_.max(b_), a_.min(b_)),
         _ => (a_.min(b_), a_.max(b_)),
     };
-    let inp = match draw_input::<T>(c, m, n) {
+    let inp = match draw_input::<T>(c, m, n, true) {
         Some(i) => i,
         None => return,
     };
@@ -622,9 +626,9 @@ both!(svd_rankdef, svd_rankdef_t, 0.3);
 fn main() {
     runner::main(Spec {
         property: "C01",
-        rule: "cases are drawn per family (lu, qr, chol, chol_indef, svd, svd_rankdef) from seeded structured generators: shape 1..40 (square / tall / wide), f64 or f32, nine structural kinds, rescaled by 1 / 10^u / 2^u with 10^u in [1e-12,1e12], condition number measured by an independent Jacobi SVD and bounded by 1e6 (f64) / 1e3 (f32), 1..4 right-hand sides; a case is non-trivial when max(m,n) >= 2 (all rank-deficient and indefinite cases are); distinct = distinct hash of (operation, width, entries of A and B); right-hand sides are dense or structured (identity, signed unit vectors, columns with exactly zero head / tail, one zero column)",
+        rule: "cases are drawn per family (lu, qr, chol, chol_indef, svd, svd_rankdef) from seeded structured generators: shape 1..40 (square / tall / wide), f64 or f32, nine structural kinds, rescaled by 1 / 10^u / 2^u with 10^u in [1e-12,1e12], condition number measured by an independent Jacobi SVD and bounded by 1e6 (in f32: 1e6 for LU / QR / Cholesky, half of the draws below 1e3; 1e3 for the SVD family), 1..4 right-hand sides; a case is non-trivial when max(m,n) >= 2 (all rank-deficient and indefinite cases are); distinct = distinct hash of (operation, width, entries of A and B); right-hand sides are dense or structured (identity, signed unit vectors, columns with exactly zero head / tail, one zero column)",
         assumptions: vec![
-            "f32 inputs are restricted to condition number <= 1e3 (cond·eps must stay << 1 for 'well-conditioned' to be meaningful in single precision)",
+            "f32 inputs of the SVD family are restricted to condition number <= 1e3: the SVD solver applies the rank tolerance max(m,n)·eps·s_max, for which an f32 matrix of condition 1e6 is numerically rank-deficient; LU / QR / Cholesky are judged by backward-error residuals and get the full range",
             "oracle arithmetic is f64 with compensated sums on the already-rounded inputs",
             "tolerance tau = 100·max(m,n)·eps relative to ‖A‖_F (and ‖X‖, ‖B‖ for solves)",
         ],
